@@ -31,8 +31,15 @@ import (
 )
 
 // numChain: every block number has its own header (seed) and one of three validator readers.
+type fork struct {
+	at uint64
+	id int
+}
+
 type numChain struct {
 	stubChain
+	forks   []fork // re-orgs so far: blocks with number >= at belong to branch id
+	nextID  int
 	base    []byte
 	version params.YouVersion
 	readers [3]state.ValidatorReader
@@ -43,14 +50,40 @@ func (c *numChain) header(n uint64) *types.Header {
 	if h, ok := c.hdrs[n]; ok {
 		return h
 	}
-	h := &types.Header{Number: new(big.Int).SetUint64(n), ValRoot: common.Hash{byte(n%3 + 1)}, CurrVersion: c.version}
-	seed := crypto.Keccak256Hash(c.base, new(big.Int).SetUint64(n+1).Bytes())
+	br := c.branchOf(n)
+	h := &types.Header{Number: new(big.Int).SetUint64(n), ValRoot: common.Hash{byte((n+uint64(br))%3 + 1)}, CurrVersion: c.version}
+	seed := crypto.Keccak256Hash(c.base, []byte{byte(br)}, new(big.Int).SetUint64(n+1).Bytes())
 	cons, _ := ucon.PrepareConsensusData(h, &ucon.BlockConsensusData{Round: new(big.Int).SetUint64(n), RoundIndex: 1, Seed: seed,
 		SortitionProof: []byte{}, Signature: []byte{}, ProposerThreshold: 26, ValidatorThreshold: 2000, CertValThreshold: 4000})
 	h.Consensus = cons
 	c.hdrs[n] = h
 	return h
 }
+
+// branchOf: the branch the block with this number belongs to now
+func (c *numChain) branchOf(n uint64) int {
+	id := 0
+	for _, f := range c.forks {
+		if f.at <= n {
+			id = f.id
+		}
+	}
+	return id
+}
+
+// rebranch: a re-org replaces every block with number >= at by a block of a new branch (other seeds, other stake tables)
+func (c *numChain) rebranch(at uint64) {
+	var keep []fork
+	for _, f := range c.forks {
+		if f.at < at {
+			keep = append(keep, f)
+		}
+	}
+	c.nextID++
+	c.forks = append(keep, fork{at, c.nextID})
+	c.hdrs = map[uint64]*types.Header{}
+}
+
 func (c *numChain) CurrentHeader() *types.Header                            { return c.header(0) }
 func (c *numChain) GetHeader(hash common.Hash, number uint64) *types.Header { return c.header(number) }
 func (c *numChain) GetHeaderByNumber(number uint64) *types.Header           { return c.header(number) }
@@ -278,6 +311,21 @@ func (h *harness) mgrScript(base []byte, keyBytes [][]byte, who int, script stri
 			h.ask(fmt.Sprintf("MC %d", r))
 			continue
 		}
+		if f[0] == "W" {
+			// head rewind / re-org: the Server is back in round r (head r-1); blocks from `at` on belong to a new branch;
+			// StartNewRound -> clearData notifies ClearStepView(head round + 1)
+			at := uint64(r)
+			if len(f) >= 3 {
+				at, _ = strconv.ParseUint(f[2], 10, 64)
+			}
+			w.ch.rebranch(at)
+			w.sm.ClearStepView(big.NewInt(r))
+			h.ask(fmt.Sprintf("MW %d", r))
+			if record {
+				h.res.Dist("mgr-op-W")
+			}
+			continue
+		}
 		if len(f) < 3 {
 			continue
 		}
@@ -381,11 +429,34 @@ func genMgrScript(r interface {
 			add("V %d %d %d", rr, idx, steps[r.Intn(len(steps))])
 		case 7:
 			add("G %d %d %d", rr, idx, []uint32{1, 2, 3}[r.Intn(3)])
-		default:
+		case 8:
 			if r.Chance(70) {
 				cur++
 			}
 			add("C %d", cur) // the consensus loop moves on (or repeats the clear of its round)
+		default:
+			if r.Chance(45) && cur > R {
+				// re-org: back to a lower round on another branch, then forward again over the same rounds and keys
+				back := int64(1 + r.Intn(2))
+				top := cur
+				cur -= back
+				add("W %d %d", cur, cur-int64(r.Intn(2)))
+				st := steps[r.Intn(len(steps))]
+				for cur < top+1 {
+					if r.Chance(50) {
+						add("V %d 1 %d", cur, st)
+					}
+					cur++
+					add("C %d", cur)
+					add("V %d 1 %d", cur, st)
+					if r.Chance(50) {
+						add("P %d 1", cur)
+					}
+				}
+			} else {
+				cur++
+				add("C %d", cur)
+			}
 		}
 	}
 	return strings.Join(ops, ";")
@@ -412,6 +483,9 @@ func (h *harness) mgrStream(n int) {
 		script := genMgrScript(r)
 		if i == 0 {
 			script = "C 40;P 40 1;V 40 1 2;P 41 1;C 41;P 41 1;V 40 1 2;V 41 1 2;V 41 1 3;C 42;V 41 1 3;V 42 1 3;P 42 1"
+		}
+		if i == 1 { // rounds 40..42, head rewound to round 40 on another branch, rounds 41, 42 again
+			script = "C 40;V 40 1 2;C 41;V 41 1 2;P 41 1;C 42;V 42 1 2;P 42 1;W 40 39;V 40 1 2;C 41;V 41 1 2;P 41 1;C 42;V 42 1 2;P 42 1"
 		}
 		if bad := h.mgrScript(base, keys, who, script, false); bad != "" {
 			// shrink the script (ddmin over ops) while it keeps failing
